@@ -219,3 +219,43 @@ Proof.
     { destruct (existsb (N.eqb p) sub) eqn:X; auto. apply existsb_eqb_in in X. contradiction. }
     rewrite E. exact Hpi.
 Qed.
+
+(* ------------------------------------------------------------------ helpers for the invariant *)
+
+Lemma find_blk_filter (P : blk -> bool) l x b :
+  NoDup (map b_hash l) -> In b (filter P l) -> b_hash b = x -> find_blk (filter P l) x = Some b.
+Proof.
+  intros ND Hb <-. apply find_blk_in; auto. apply NoDup_map_filter. exact ND.
+Qed.
+
+Lemma pair_eqb_refl p : pair_eqb p p = true.
+Proof. unfold pair_eqb. rewrite !N.eqb_refl. reflexivity. Qed.
+
+Lemma filter_hashes_incl (P : blk -> bool) l x : In x (map b_hash (filter P l)) -> In x (map b_hash l).
+Proof.
+  intros H. apply in_map_iff in H as (b & <- & Hb). apply filter_In in Hb as (Hb & _). apply in_map; auto.
+Qed.
+
+(* the data of a finalisation of a held block other than the head, seen from the tree *)
+Record fin_data (st : bstate) (f : fstate) (h : N) (m : bnode) (q : list bnode) : Prop := {
+  fd_wf : wf (bs_tree st);
+  fd_seq : seq (abs (bs_tree st)) (f_set f);
+  fd_path : is_path (root (bs_tree st)) (root (bs_tree st) :: q) m;
+  fd_hash : nhash m = h;
+  fd_find : find_node h (root (bs_tree st)) = Some m;
+  fd_ne : h <> nhash (root (bs_tree st));
+  fd_q : q <> [] }.
+
+Lemma fin_data_exists g st f h : inv g st f -> s_known (f_set f) h = true -> h <> s_root (f_set f) ->
+  exists m q, fin_data st f h m q.
+Proof.
+  intros I Hk Hne. destruct (i_sim _ _ _ I) as (W & E). pose proof W as (U & _).
+  assert (Er : s_root (f_set f) = nhash (root (bs_tree st))) by (destruct E as (Er & _); rewrite <- Er; reflexivity).
+  assert (Hin : In h (all_hashes (root (bs_tree st)))).
+  { apply abs_known. rewrite (seq_known _ _ E (abs_swf _ U)). exact Hk. }
+  destruct (find_node_in _ _ Hin) as (m & Hf). destruct (find_node_some _ _ _ Hf) as (Hm & Hmh).
+  destruct (node_has_path _ _ Hm) as (p & Hp). destruct (is_path_head _ _ _ Hp) as (q & ->).
+  exists m, q. constructor; auto; try congruence.
+  intros ->. inversion Hp as [|? c p' ? Hc Hp']; subst; [congruence|inversion Hp'].
+Qed.
+
